@@ -52,16 +52,37 @@ type histCase struct {
 	H     history `json:"h"`
 	CSeed int64   `json:"cseed"` // concretisation of the values
 	RSeed int64   `json:"rseed"` // rendering
+	Crypt string  `json:"crypt,omitempty"` // "", "none" or one of cryptNames
 }
 
 func runHist(c histCase) (histRecord, *ser.Result, error) {
-	b := concretise(c.H, rand.New(rand.NewSource(c.CSeed)))
-	res, err := ser.RenderResult(b.doc, &ser.Options{Seed: c.RSeed})
+	rec, res, _, err := runHistB(c)
+	return rec, res, err
+}
+
+func buildHist(c histCase) (*built, error) {
+	cs, err := newCrypt(c.Crypt, c.CSeed)
 	if err != nil {
-		return histRecord{}, nil, err
+		return nil, err
+	}
+	return concretise(c.H, rand.New(rand.NewSource(c.CSeed)), cs), nil
+}
+
+func runHistB(c histCase) (histRecord, *ser.Result, *built, error) {
+	b, err := buildHist(c)
+	if err != nil {
+		return histRecord{}, nil, nil, err
+	}
+	opt := &ser.Options{Seed: c.RSeed}
+	if b.crypt != nil {
+		opt.Encrypt = b.crypt.encrypt
+	}
+	res, err := ser.RenderResult(b.doc, opt)
+	if err != nil {
+		return histRecord{}, nil, nil, err
 	}
 	rec := observe(c.H, b, res.Bytes, res.Sizes[len(res.Sizes)-1], c.RSeed)
-	return rec, res, nil
+	return rec, res, b, nil
 }
 
 // f11Trigger reports whether a file has the layout that the tolerance hack in
@@ -69,7 +90,7 @@ func runHist(c histCase) (histRecord, *ser.Result, error) {
 // subsection that starts at object 1 and whose first entry is
 // `0000000000 65535 f`.
 func f11Trigger(data []byte) bool {
-	f, err := strict.Parse(data)
+	f, err := strict.Parse(data) // the sections are never encrypted
 	if err != nil {
 		return false
 	}
@@ -170,9 +191,9 @@ func simulate(h history) func(n, g int) int {
 
 func mcConstants(ctx *core.Ctx) string {
 	if ctx.Thorough() {
-		return "Objs={1,2,3}, MaxRevs=3, Styles={runs}, ZeroFree=FALSE, MaxPieces=5, OFFBYONE=FALSE, NULLZERO=FALSE"
+		return "Objs={1,2,3}, MaxRevs=3, Styles={runs}, ZeroFree=FALSE, MaxPieces=5, OFFBYONE=FALSE, NULLZERO=FALSE, KEYGEN0=FALSE, DECRYPTMEMBERS=FALSE"
 	}
-	return "Objs={1,2,3}, MaxRevs=2, Styles={one,each,runs}, ZeroFree=TRUE, MaxPieces=4, OFFBYONE=FALSE, NULLZERO=FALSE"
+	return "Objs={1,2,3}, MaxRevs=2, Styles={one,each,runs}, ZeroFree=TRUE, MaxPieces=4, OFFBYONE=FALSE, NULLZERO=FALSE, KEYGEN0=FALSE, DECRYPTMEMBERS=FALSE"
 }
 
 func tlcOpts() core.TLCOpts {
@@ -183,6 +204,7 @@ func run(ctx *core.Ctx) error {
 	ctx.Ev.Rule = "evaluations = Reader.Get / GetMeta / Stream.NewReader calls on rendered files; a history is non-trivial when it has " +
 		">= 2 revisions or a free entry; distinct = distinct (history, rendering seed) pairs plus distinct (body, declared length) pairs"
 	ctx.Ev.Assume("TLC evaluates XRefHistory.tla / PdfFile.tla faithfully; RefLookup, RefExtent and the admissible sets state ISO 32000 7.3.8, 7.3.10, 7.5.4-7.5.8 and the property's quantifier")
+	ctx.Ev.Assume("indep/secure implements Algorithms 1, 1.A, 2-13 of ISO 32000-2 7.6 (encrypted renderings are cross-checked: the strict parser + indep/secure must read back every written value before go-pdf is judged)")
 	ctx.Ev.Assume("indep/ser emits only conforming files (cross-checked: strict.Parse + WellFormed on every rendered file, PdfFile!WellFormed in TLC on a sample, 4000x3 round trips in go test)")
 
 	// 1. exhaustive design model
@@ -213,11 +235,23 @@ func run(ctx *core.Ctx) error {
 
 	// 3. render every history >= 3 ways, open it with the real reader
 	variants := ctx.Pick(3, 8)
+	nenc := 0
 	var jobs []job
 	for i, gc := range hcases {
 		for v := 0; v < variants; v++ {
 			s := ctx.Seed*1_000_003 + int64(i)*31 + int64(v)
-			jobs = append(jobs, job{histCase{"hist", gc.H, s*2 + 1, s}, gc.Expect, gc.Trailer})
+			c := histCase{Kind: "hist", H: gc.H, CSeed: s*2 + 1, RSeed: s}
+			// thorough: three of the eight renderings are encrypted
+			if ctx.Thorough() && v >= 5 {
+				c.Crypt = cryptNames[(i+v)%len(cryptNames)]
+			}
+			jobs = append(jobs, job{c, gc.Expect, gc.Trailer})
+		}
+		// quick: one encrypted rendering for every fifth history
+		if !ctx.Thorough() && int64(i)%5 == ((ctx.Seed%5)+5)%5 {
+			s := ctx.Seed*1_000_003 + int64(i)*31 + 29
+			jobs = append(jobs, job{histCase{Kind: "hist", H: gc.H, CSeed: s*2 + 1, RSeed: s, Crypt: cryptNames[(i/5)%len(cryptNames)]}, gc.Expect, gc.Trailer})
+			nenc++
 		}
 	}
 	// random histories beyond the bounds of the table (judged by TLC only)
@@ -225,18 +259,37 @@ func run(ctx *core.Ctx) error {
 	nrand := ctx.Pick(3000, 40000)
 	for i := 0; i < nrand; i++ {
 		h := randomHistory(rng, 5, 3+rng.Intn(2))
-		jobs = append(jobs, job{c: histCase{"hist", h, rng.Int63(), rng.Int63()}})
+		c := histCase{Kind: "hist", H: h, CSeed: rng.Int63(), RSeed: rng.Int63()}
+		if ctx.Thorough() && i%2 == 1 {
+			c.Crypt = cryptNames[rng.Intn(len(cryptNames))]
+		}
+		jobs = append(jobs, job{c: c})
+	}
+	// histories in which the key scope matters (an object in use with a
+	// generation > 0, compressed or hidden objects), rendered encrypted: the
+	// table above has at most two revisions, and an object freed and defined
+	// again takes three
+	nkey := ctx.Pick(600, 6000)
+	for i := 0; i < nkey; {
+		h := randomHistory(rng, 5, 2+rng.Intn(3))
+		if !keyScopeMatters(h) {
+			continue
+		}
+		jobs = append(jobs, job{c: histCase{Kind: "hist", H: h, CSeed: rng.Int63(), RSeed: rng.Int63(), Crypt: cryptNames[i%len(cryptNames)]}})
+		i++
 	}
 	st := &histStats{seenKey: map[string]int{}}
 	if err := processJobs(ctx, jobs, st); err != nil {
 		return err
 	}
-	ctx.Ev.AddReplayed(len(hcases) * variants)
-	ctx.Logf("histories: %d table cases x %d renderings + %d random executed on pdf.NewReader; %d table mismatches; %d files have the F11 layout",
-		len(hcases), variants, nrand, st.mismatches, st.triggers)
+	ctx.Ev.AddReplayed(len(hcases)*variants + nenc)
+	ctx.Logf("histories: %d table cases x %d renderings (+%d encrypted) + %d random + %d key-scope histories executed on pdf.NewReader (%d encrypted files); %d table mismatches; %d files have the F11 layout",
+		len(hcases), variants, nenc, nrand, nkey, st.encrypted, st.mismatches, st.triggers)
 	ctx.Ev.Set("histories_in_table", len(hcases))
 	ctx.Ev.Set("renderings_per_history", variants)
 	ctx.Ev.Set("random_histories", nrand)
+	ctx.Ev.Set("key_scope_histories_encrypted", nkey)
+	ctx.Ev.Set("encrypted_renderings", st.encrypted)
 	if len(hcases) > 0 {
 		ctx.Ev.Sample(map[string]any{"kind": "table line of Gen_XRefHistory", "case": hcases[len(hcases)/2]})
 	}
@@ -264,7 +317,11 @@ func run(ctx *core.Ctx) error {
 			}
 			taken++
 			s := ctx.Seed*7_000_003 + int64(n3)
-			chunk = append(chunk, job{c: histCase{"hist", h, s*2 + 1, s}})
+			c := histCase{Kind: "hist", H: h, CSeed: s*2 + 1, RSeed: s}
+			if n3%2 == 0 {
+				c.Crypt = cryptNames[(n3/2)%len(cryptNames)]
+			}
+			chunk = append(chunk, job{c: c})
 			if len(chunk) >= 60000 {
 				flush()
 			}
@@ -314,6 +371,7 @@ type job struct {
 
 type histStats struct {
 	mismatches, triggers int
+	encrypted            int
 	seenKey              map[string]int
 	fileRecs             []map[string]any
 	sampled              bool
@@ -327,7 +385,7 @@ func processJobs(ctx *core.Ctx, jobs []job, st *histStats) error {
 	var mu sync.Mutex
 	var first error
 	parallel(len(jobs), 16, func(i int) {
-		rec, res, err := runHist(jobs[i].c)
+		rec, res, b, err := runHistB(jobs[i].c)
 		if err != nil {
 			mu.Lock()
 			if first == nil {
@@ -341,17 +399,29 @@ func processJobs(ctx *core.Ctx, jobs []job, st *histStats) error {
 		if len(jobs[i].c.H) >= 2 || strings.Contains(jobs[i].c.H.key(), "free") {
 			ctx.Ev.Distinct(fmt.Sprintf("%s/%d", jobs[i].c.H.key(), jobs[i].c.RSeed))
 		}
-		// every rendered file must be well formed for the strict parser
-		f, perr := strict.Parse(res.Bytes)
+		// every rendered file must be well formed for the strict parser, and
+		// (decrypted with the independent security handler) hold the values of
+		// the newest revision
+		pw := ""
+		if b.crypt != nil {
+			pw = b.crypt.password
+			mu.Lock()
+			st.encrypted++
+			mu.Unlock()
+		}
+		f, perr := parseStrict(res.Bytes, pw)
 		if perr == nil {
 			if ps := strict.WellFormed(f); len(ps) > 0 {
 				perr = fmt.Errorf("%s", ps[0])
 			}
 		}
+		if perr == nil && b.crypt != nil {
+			perr = checkStrictValues(f, jobs[i].c.H, b)
+		}
 		if perr != nil {
 			mu.Lock()
 			if first == nil {
-				first = core.Infra("serialiser emitted a file the strict parser rejects (history %s, seed %d): %v", jobs[i].c.H.key(), jobs[i].c.RSeed, perr)
+				first = core.Infra("serialiser emitted a file the strict parser rejects (history %s, seed %d, encryption %q): %v", jobs[i].c.H.key(), jobs[i].c.RSeed, jobs[i].c.Crypt, perr)
 			}
 			mu.Unlock()
 			return
@@ -402,6 +472,61 @@ func processJobs(ctx *core.Ctx, jobs []job, st *histStats) error {
 	return nil
 }
 
+// keyScopeMatters tells whether a history ends with an object in use whose
+// generation is not 0, or has compressed or hidden objects.
+func keyScopeMatters(h history) bool {
+	st := make([]objState, h.nObj())
+	for _, rv := range h {
+		for i, op := range rv.O {
+			st[i] = applyOp(st[i], op)
+			if op == "defc" || op == "hdef" || op == "hdefc" {
+				return true
+			}
+		}
+	}
+	for _, s := range st {
+		if s.st == 2 && s.gen > 0 {
+			return true
+		}
+	}
+	return false
+}
+
+// checkStrictValues compares what the strict parser + the independent
+// security handler read from an encrypted rendering with what was written
+// (a cross-check of the trusted observers, not of go-pdf).
+func checkStrictValues(f *strict.File, h history, b *built) error {
+	exp := simulate(h)
+	for n := 1; n <= h.nObj(); n++ {
+		for _, g := range []int{0, 1, 2} {
+			want := exp(n, g)
+			v, ok, err := strictValue(f, obj.Ref{Num: uint32(n), Gen: uint16(g)})
+			if err != nil {
+				return fmt.Errorf("object %d %d: %v", n, g, err)
+			}
+			if ok != (want != 0) {
+				return fmt.Errorf("object %d %d: found=%v, want revision %d", n, g, ok, want)
+			}
+			if ok {
+				w := b.values[[2]int{n, want}]
+				if s, isStream := v.(*obj.Stream); isStream {
+					d := obj.Dict{}
+					for k, e := range s.Dict {
+						if k != "Length" {
+							d[k] = e
+						}
+					}
+					v = &obj.Stream{Dict: d, Raw: s.Raw}
+				}
+				if !obj.Equal(v, w) {
+					return fmt.Errorf("object %d %d decrypts to %s, written %s", n, g, obj.String(v), obj.String(w))
+				}
+			}
+		}
+	}
+	return nil
+}
+
 // tableMismatch compares a record with a line of Gen_XRefHistory's table.
 func tableMismatch(rec histRecord, expect [][3]int, tr int) bool {
 	if !rec.Open || rec.Trailer != tr || len(rec.Probes) != len(expect) {
@@ -424,7 +549,11 @@ func reportHist(ctx *core.Ctx, c histCase, seenKey map[string]int) {
 		return
 	}
 	exp := simulate(c.H)
-	key := histKey(rec, res, concretise(c.H, rand.New(rand.NewSource(c.CSeed))), exp)
+	b, err := buildHist(c)
+	if err != nil {
+		return
+	}
+	key := histKey(rec, res, b, exp)
 	if seenKey != nil {
 		seenKey[key]++
 		if seenKey[key] > 1 {
@@ -432,6 +561,9 @@ func reportHist(ctx *core.Ctx, c histCase, seenKey map[string]int) {
 		}
 	}
 	what := fmt.Sprintf("history %s rendered with seed %d: ", c.H.key(), c.RSeed)
+	if b.crypt != nil {
+		what = fmt.Sprintf("history %s rendered with seed %d, encrypted %s (/Encrypt indirect: %v): ", c.H.key(), c.RSeed, b.crypt.name, b.crypt.indirect)
+	}
 	switch {
 	case !rec.Open:
 		what += "pdf.NewReader fails: " + rec.Err
@@ -496,7 +628,7 @@ func generate(ctx *core.Ctx) ([]genCase, error) {
 		wg.Add(1)
 		go func(sh int) {
 			defer wg.Done()
-			cfg := fmt.Sprintf("INIT Init\nNEXT Next\nCONSTANTS OFFBYONE = FALSE\n NULLZERO = FALSE\n Objs = {1, 2, 3}\n MaxRevs = 2\n MaxPieces = %d\n Shard = %d\n Shards = %d\n", pieces, sh, shards)
+			cfg := fmt.Sprintf("INIT Init\nNEXT Next\nCONSTANTS OFFBYONE = FALSE\n NULLZERO = FALSE\n KEYGEN0 = FALSE\n DECRYPTMEMBERS = FALSE\n Objs = {1, 2, 3}\n MaxRevs = 2\n MaxPieces = %d\n Shard = %d\n Shards = %d\n", pieces, sh, shards)
 			cs, _, err := core.GenCases[genCase](ctx, core.TLCOpts{Dir: specDir, Module: "Gen_XRefHistory", CfgText: cfg, Mode: "evaluate",
 				XssMB: 512, Timeout: ctx.Dur(5, 15), Quiet: sh > 0, Constants: "Objs=1..3, MaxRevs=2"})
 			mu.Lock()
